@@ -9,6 +9,8 @@ ENGINES = {
                     files=["poolsim_test.go"], instrument=GRPCGCP_INSTR_CLOCK),
     "mesim": dict(module="grpcgcp", pkg="multiendpoint", pkgname="multiendpoint", pkgmarker="multiendpoint.", harness="multiendpoint",
                   files=["mesim_test.go"], kind="sequential virtual-clock simulation of MultiEndpoint vs reference state machine"),
+    "keys": dict(module="grpcgcp", pkg=".", pkgname="grpcgcp", pkgmarker="grpcgcp.", harness="grpcgcp",
+                 files=["keys_test.go"], kind="generated Go values x locators vs independent reference traversal"),
 }
 
 POOLSIM_ESSENTIAL = {
@@ -70,6 +72,14 @@ for pid, rule in [
                       stages=[dict(name="mesim", engine="mesim", test="TestVerifME", batches=dict(quick=8, thorough=16),
                                    essential=ME_ESSENTIAL, timeout=dict(quick=900, thorough=7200))])
 
+PROPS["C11"] = dict(level="exploration",
+    rule="seeded random Go types (reflect.StructOf: strings, ints, bools, []byte, nested structs, pointers, slices, interfaces, maps, arrays, embedded structs/pointers, nil at every pointer/slice position) x locators (valid walks, missing/extra/empty segments, wrong case, non-identifiers) plus generated pb.ApiConfig messages; non-trivial = the reference gives a definite answer (exact keys or must-be-error); distinct = hash of (value description, locator)",
+    assumptions=["the reference traversal is written from the statement over the generator's own value tree (not reflect)",
+                 "shapes the statement does not define (pointer-to-pointer, interface holding a pointer, maps, arrays, repeated-of-repeated, promoted fields of embedded structs, non-identifier segments) are checked for totality only"],
+    stages=[dict(name="keys", engine="keys", test="TestVerifKeys", batches=dict(quick=8, thorough=16),
+                 essential={"C11": ["C11.total", "C11.exact-keys", "C11.fan-out", "C11.empty-repeated", "C11.error-expected", "C11.ambiguous-shape-total", "C11.proto-message"]},
+                 timeout=dict(quick=900, thorough=7200))])
+
 NOT_APPLICABLE = {}
 
 _POOL_NOTE = ("Trusted: the harness's shadow of the contract, the fake ClientConn/SubConn (gRPC 1.56 calling discipline), the build-time "
@@ -99,3 +109,7 @@ MANIFEST_TEXT["C13"] = dict(technique="runtime monitoring: reference-state-machi
 MANIFEST_TEXT["C14"] = dict(technique="runtime monitoring: admissible-set safety rules over Current() transitions + constructed quiescence under a virtual clock",
     design_ref="DESIGN.md §5 C14", level_note=_ME_NOTE,
     level_text="Exploration: the same histories judged by safety rules on every transition (recovering current keeps its place, no switch inside the call under a delay, never from an available endpoint to a lower-priority one), with shuffled simultaneous timers and late callbacks; convergence is decided at a constructed quiescent state (timer heap empty).")
+
+MANIFEST_TEXT["C11"] = dict(technique="runtime monitoring: differential oracle (independent reference traversal) + panic monitor over generated values and locators",
+    design_ref="DESIGN.md §5 C11", level_note="Trusted: the reference traversal and the value generator (reflect.StructOf); three-valued on shapes the statement leaves open. Held = held on the generated (value, locator) pairs.",
+    level_text="Exploration: >100k generated (Go value, locator) pairs per quick run; the result of getAffinityKeysFromMessage must equal the reference's keys in order, or be an error where the reference says error, and must never panic (also on ambiguous shapes); protobuf messages with nil entries are included.")
